@@ -549,6 +549,9 @@ func expectedSum(paths []string, from, until, now int64) ([]*seriesView, []model
 			if s == nil || acc[a] == nil {
 				continue
 			}
+			if len(s.vals) != len(acc[a].vals) || s.from != acc[a].from {
+				return nil, nil, fmt.Errorf("library reads of the files give different windows")
+			}
 			for i, x := range s.vals {
 				if math.IsNaN(x) {
 					continue
